@@ -83,22 +83,19 @@ public:
 
   Iterator find(const T& key) const
   {
+    Item* result = 0;
     for(Item* item = root; item; )
     {
       if(key > item->key)
-      {
         item = item->right;
-        continue;
-      }
-      else if(key < item->key)
-      {
-        item = item->left;
-        continue;
-      }
       else
-        return item;
+      {
+        if(!(key < item->key))
+          result = item; // an equal key; keep looking for an earlier one
+        item = item->left;
+      }
     }
-    return _end;
+    return result ? Iterator(result) : _end;
   }
 
   bool contains(const T& key) const {return find(key) != _end;}
